@@ -680,7 +680,13 @@ def inline_program(bodies_by_tag):
                             _splice(j, i, cj, report, tag)
                 i += 1
         for bid, j in list(bodies.items()):
-            process(bid, j, [])
+            # fail-safe: a body the pass cannot handle stays as rustc emitted it
+            backup = (list(j["blocks"]), list(j["locals"]))
+            try:
+                process(bid, j, [])
+            except Exception as ex:       # pragma: no cover
+                j["blocks"], j["locals"] = backup
+                report.append({"crate": tag, "host": bid, "callee": "error", "blocks": 0, "threaded": 0, "error": repr(ex)[:200]})
         # In the server crates (event-based rules over the handlers of the state machine) every constructed
         # Result / Option / bool constant that is branched on later is threaded (`let res = match .. { .. => Err(e) };
         # match res { .. }`).  In the engine crate only values that originate in spliced code are threaded: its rules
@@ -689,7 +695,13 @@ def inline_program(bodies_by_tag):
         for bid, j in bodies.items():
             spliced = j.pop("_spliced", False)
             if _SEED_ALL[0] or spliced:
-                n = thread_body(j)
+                backup = list(j["blocks"])
+                try:
+                    n = thread_body(j)
+                except Exception as ex:   # pragma: no cover
+                    j["blocks"] = backup
+                    n = 0
+                    report.append({"crate": tag, "host": bid, "callee": "error", "blocks": 0, "threaded": 0, "error": repr(ex)[:200]})
                 if n:
                     report.append({"crate": tag, "host": bid, "callee": "thread", "blocks": n, "threaded": n})
         # a helper that was spliced into every caller is not analysed a second time out of context (its
